@@ -375,7 +375,7 @@ Section Roundtrip.
   Hypothesis counts : forall pd, In pd pds ->
     Reconstruct.data_len (snd pd) = length (map fst cq) * length (Reconstruct.pgroups (fst pd)).
   Hypothesis shapes : forall pd, In pd pds ->
-    length (Reconstruct.plookup (fst pd)) = nobs /\ Reconstruct.locs_ok (fst pd).
+    length (Reconstruct.plookup (fst pd)) = nobs /\ locs_wf (fst pd).
   Hypothesis keys : forall pd key, In pd pds -> In key (Reconstruct.keys_of (snd pd)) ->
     Reconstruct.outcome_to_int pyint0 key = Some (den key).
   (* partition li's results for sample z (experiments z*G + m, m over the lookup locations of observable k) decode to
@@ -400,7 +400,8 @@ Section Roundtrip.
     Reconstruct.res_Qeq (Reconstruct.reconstruct_parts pyint0 nobs (map fst cq) pds)
                         (Ok (map Ev (seq 0 nobs))).
   Proof.
-    pose proof (ReconstructP.estimator_full pyint0 den nobs (map fst cq) pds counts shapes keys) as H.
+    pose proof (ReconstructP.estimator_full pyint0 den nobs (map fst cq) pds counts
+                  (fun pd Hpd => conj (proj1 (shapes pd Hpd)) (proj1 (proj2 (shapes pd Hpd)))) keys) as H.
     destruct (Reconstruct.reconstruct_parts pyint0 nobs (map fst cq) pds) as [x| |]; try exact H.
     cbn [Reconstruct.res_Qeq] in *. eapply Forall2_Qeq_map_ext; [exact H|].
     intros k Hk. apply in_seq in Hk. apply estimator_is_Ev. lia.
@@ -613,7 +614,7 @@ Theorem unseparated (C : list (list Q)) (nobs : nat) (term : jkey -> nat -> Q) (
           (sort_samples W) cq ->
   (forall x, In x (Reconstruct.pphases p) -> x = 0) ->
   Reconstruct.data_len d = length (map fst cq) * length (Reconstruct.pgroups p) ->
-  length (Reconstruct.plookup p) = nobs -> Reconstruct.locs_ok p ->
+  length (Reconstruct.plookup p) = nobs -> locs_wf p ->
   (forall key, In key (Reconstruct.keys_of d) -> Reconstruct.outcome_to_int pyint0 key = Some (den key)) ->
   (forall z s k, nth_error (sort_samples W) z = Some s -> k < nobs ->
      (Reconstruct.E den (p, d) z k == E0 (s_ids s) k)%Q) ->
@@ -657,7 +658,7 @@ Theorem roundtrip_public (C : list (list Q)) (L : list (list nat)) (term : jkey 
   (forall l, In l (map Reconstruct.plabel (p0 :: ps)) <-> In l (map fst m)) ->
   (forall p x, In p (p0 :: ps) -> In x (Reconstruct.pphases p) -> x = 0) ->
   length (p0 :: ps) = length L ->
-  (forall p, In p (p0 :: ps) -> length (Reconstruct.plookup p) = nobs /\ Reconstruct.locs_ok p) ->
+  (forall p, In p (p0 :: ps) -> length (Reconstruct.plookup p) = nobs /\ locs_wf p) ->
   (forall p d, In p (p0 :: ps) -> Reconstruct.assoc m (Reconstruct.plabel p) = Some d ->
      Reconstruct.data_len d = length (map fst cq) * length (Reconstruct.pgroups p) /\
      (forall key, In key (Reconstruct.keys_of d) -> Reconstruct.outcome_to_int pyint0 key = Some (den key))) ->
@@ -742,7 +743,7 @@ Section Generated.
   Hypothesis rparts_groups :
     Forall2 (fun lg rp => length (Reconstruct.pgroups rp) = length (snd lg)) og rparts.
   Hypothesis rparts_shape : forall rp, In rp rparts ->
-    length (Reconstruct.plookup rp) = nobs /\ Reconstruct.locs_ok rp.
+    length (Reconstruct.plookup rp) = nobs /\ locs_wf rp.
 
   Let S := sort_samples W.
   Let E := E_all gh gsx env run den table og rparts.
@@ -752,7 +753,7 @@ Section Generated.
   Lemma generated_partition_exact lg le rp z s k :
     entry_ok gh gsx env table S lg le ->
     length (Reconstruct.pgroups rp) = length (snd lg) ->
-    length (Reconstruct.plookup rp) = nobs -> Reconstruct.locs_ok rp ->
+    length (Reconstruct.plookup rp) = nobs -> locs_wf rp ->
     nth_error S z = Some s -> length (s_ids s) = length C -> k < nobs ->
     Reconstruct.E den (rp, Reconstruct.DV1 (map run (snd le))) z k
     = E_gen gh gsx env run den rp (pinfo_of table (fst lg)) (snd lg)
@@ -761,7 +762,7 @@ Section Generated.
     intros (_ & _ & Hent) HG Hlk Hlocs Hs Hlen Hk.
     unfold Reconstruct.E, E_gen. cbn [fst snd]. f_equal. apply map_ext_in. intros [m n] Hmn. cbn [fst snd].
     assert (Hin : In (nth k (Reconstruct.plookup rp) []) (Reconstruct.plookup rp)) by (apply nth_In; lia).
-    destruct (Hlocs _ m n Hin Hmn) as (Hm & _). rewrite HG in Hm.
+    destruct (proj1 Hlocs _ m n Hin Hmn) as (Hm & _). rewrite HG in Hm.
     destruct (nth_error (snd lg) m) as [g|] eqn:Eg; [|apply nth_error_None in Eg; lia].
     destruct (Hent z m s g Hs Eg) as (e & (p & ms & Hp & Hms & Hb) & He).
     rewrite HG. cbn [Reconstruct.E_exp]. rewrite (nth_map_run run _ _ _ [] He). cbn [nth].
@@ -864,7 +865,7 @@ Theorem generated_roundtrip_dict gh gsx env cenv d od NS W dd cq
        nth_error (L_of (length C) (table_of d M) og) li = Some (suffixes (mdata qc))) /\
     forall (rparts : list Reconstruct.part) (nobs : nat) (term : jkey -> nat -> Q) (Ev : nat -> Q) pyint0,
     Forall2 (fun lg rp => length (Reconstruct.pgroups rp) = length (snd lg)) og rparts ->
-    (forall rp, In rp rparts -> length (Reconstruct.plookup rp) = nobs /\ Reconstruct.locs_ok rp) ->
+    (forall rp, In rp rparts -> length (Reconstruct.plookup rp) = nobs /\ locs_wf rp) ->
     (forall k, k < nobs ->
        (Ev k == sumQ (map (fun ids => (coeff_prod C ids * term ids k)%Q) (all_maps (map (@length Q) C))))%Q) ->
     (forall ids k, In ids (all_maps (map (@length Q) C)) -> k < nobs ->
@@ -897,7 +898,7 @@ Theorem generated_roundtrip_single gh gsx env cenv qc gs NS W l cq
     let og := [(label_A, groups)] in
     forall (rp : Reconstruct.part) (nobs : nat) (term : jkey -> nat -> Q) (Ev : nat -> Q) pyint0,
     length (Reconstruct.pgroups rp) = length groups ->
-    length (Reconstruct.plookup rp) = nobs -> Reconstruct.locs_ok rp ->
+    length (Reconstruct.plookup rp) = nobs -> locs_wf rp ->
     (forall k, k < nobs ->
        (Ev k == sumQ (map (fun ids => (coeff_prod C ids * term ids k)%Q) (all_maps (map (@length Q) C))))%Q) ->
     (forall ids k, In ids (all_maps (map (@length Q) C)) -> k < nobs ->
@@ -919,7 +920,7 @@ Proof.
   { clear -HF. unfold og in HF. inversion HF as [|lg le og' full' Hle HF' E1 E2]. inversion HF'. exists le. auto. }
   destruct Hone as (le & -> & Hle).
   assert (G1 : Forall2 (fun lg rp0 => length (Reconstruct.pgroups rp0) = length (snd lg)) og [rp]) by (repeat constructor; exact HG).
-  assert (G2 : forall rp0, In rp0 [rp] -> length (Reconstruct.plookup rp0) = nobs /\ Reconstruct.locs_ok rp0)
+  assert (G2 : forall rp0, In rp0 [rp] -> length (Reconstruct.plookup rp0) = nobs /\ locs_wf rp0)
     by (intros rp0 [<-|[]]; auto).
   pose proof (generated_roundtrip gh gsx env run den C table og W _ cq Hcore [rp] nobs G1 G2 [le] HF term Ev pyint0 P1 P23 Hk HW) as Hmain.
   (* the single returned list is the entry of the table *)
@@ -929,4 +930,54 @@ Proof.
     - discriminate. }
   unfold results_of in Hmain. cbn [combine map] in Hmain. rewrite Hl in Hmain. apply Hmain.
   intros pd key [<-|[]] Hkey. exact (Hkeys key Hkey).
+Qed.
+
+(* the chain with the weights dictionary of the C04 model (infinite budget): exact_weights is discharged *)
+Theorem generated_roundtrip_c04 gh gsx env run den (C : list (list Q)) table og out cq :
+  no_subcutoff_map C ->
+  Experiments.core gh gsx env C table og (of_wdict (Weights.all_exact (probs_of C) 1)) = Ok (out, cq) ->
+  forall (rparts : list Reconstruct.part) (nobs : nat),
+  Forall2 (fun lg rp => length (Reconstruct.pgroups rp) = length (snd lg)) og rparts ->
+  (forall rp, In rp rparts -> length (Reconstruct.plookup rp) = nobs /\ locs_wf rp) ->
+  forall full, Forall2 (entry_ok gh gsx env table (sort_samples (of_wdict (Weights.all_exact (probs_of C) 1)))) og full ->
+  forall (term : jkey -> nat -> Q) (Ev : nat -> Q) pyint0,
+  (forall k, k < nobs ->
+     (Ev k == sumQ (map (fun ids => (coeff_prod C ids * term ids k)%Q) (all_maps (map (@length Q) C))))%Q) ->
+  (forall ids k, In ids (all_maps (map (@length Q) C)) -> k < nobs ->
+     (term ids k == part_prod (L_of (length C) table og) (E_all gh gsx env run den table og rparts) ids k)%Q) ->
+  (forall v, In v C -> ~ (kappa_of v == 0)%Q) ->
+  (forall pd key, In pd (results_of run rparts full) -> In key (Reconstruct.keys_of (snd pd)) ->
+     Reconstruct.outcome_to_int pyint0 key = Some (den key)) ->
+  Reconstruct.res_Qeq (Reconstruct.reconstruct_parts pyint0 nobs (map fst cq) (results_of run rparts full))
+                      (Ok (map Ev (seq 0 nobs))).
+Proof.
+  intros Hno Hcore rparts nobs G1 G2 full HF term Ev pyint0 P1 P23 Hk Hkeys.
+  exact (generated_roundtrip gh gsx env run den C table og _ out cq Hcore rparts nobs G1 G2 full HF term Ev pyint0 P1 P23 Hk
+           (all_exact_is_exact_weights C Hno) Hkeys).
+Qed.
+
+(* the idle refusal, sharpened: the composed pipeline's first stage answers Refused (a ValueError) — the only other
+   possibility is that an EARLIER stage of partition_problem (partition_circuit_qubits / separate_circuit) crashed *)
+Theorem idle_refused basis_of relabel dx n ncl ncr c labels ps p q :
+  In p ps -> q < length (PartitionP.labels_used n c labels) ->
+  nth q (PartitionP.labels_used n c labels) None = None -> nth q (plets p) 0 <> 0 ->
+  partition_problem basis_of relabel dx n ncl ncr c labels (Some ps) = Refused \/
+  partition_circuit_qubits basis_of n c (PartitionP.labels_used n c labels) = Crashed \/
+  exists qc, partition_circuit_qubits basis_of n c (PartitionP.labels_used n c labels) = Ok qc /\
+             Separate.separate_circuit n [] (dx (fst (number_qpd relabel qc 0))) (Some (PartitionP.labels_used n c labels)) = Crashed.
+Proof.
+  intros Hp Hq Hl Hnz.
+  pose proof (proj1 (PartitionP.idle_observable_spec (PartitionP.labels_used n c labels) ps) p q Hp Hq Hl Hnz) as Hso.
+  unfold partition_problem. fold (PartitionP.labels_used n c labels).
+  repeat match goal with |- context [if ?b then Refused else _] => destruct b; [now left|] end.
+  cbv zeta.
+  change (match labels with Some ls => ls | None => Separate.auto_labels n is_qpd2 false c end)
+    with (PartitionP.labels_used n c labels).
+  destruct (partition_circuit_qubits basis_of n c (PartitionP.labels_used n c labels)) as [qc| |] eqn:Epcq;
+    [|now left|right; now left].
+  destruct (number_qpd relabel qc 0) as [qc' bases] eqn:En. cbn [fst].
+  destruct (Separate.separate_circuit n [] (dx qc') (Some (PartitionP.labels_used n c labels))) as [[subs qm]| |] eqn:Es.
+  - destruct ps as [|p0 ps']; [destruct Hp|]. rewrite Hso. now left.
+  - now left.
+  - right. right. exists qc. split; [reflexivity|]. rewrite En. exact Es.
 Qed.
